@@ -97,9 +97,18 @@ def cases(tier, rng):
         cs.append({"line": line, "key": line, "model": False, "tags": {"src": "parallel-routing", "nchan": len(names), "nallow": 0, "nreq": rounds * width}})
     # two endpoints of one kind in one server process (the documentation's DNS example has two), one allowing only x, the other only y:
     # a request is judged by the allow-list of the endpoint it arrived on (implementation only: real upstreams over loopback)
-    for kind in ("dns", "tcp", "udp"):
+    for kind in ("dns", "tcp", "udp", "ws", "ws2"):
         line = "c03two %s 3 %s %s %s" % (kind, hx(b"x"), hx(b"y"), hx(b"z"))
         cs.append({"line": line, "key": line, "model": False, "tags": {"src": "two-endpoints-" + kind, "nchan": 2, "nallow": 1, "nreq": 3}})
+    # the real NetworkChannel with real local services as targets, the table read from configuration text: targets that share a host
+    # name or a port, in every order of first use (implementation only)
+    for form in ("ip", "name", "mixed", "unix", "unixmixed"):
+        for _ in range(12 if thorough else 2):
+            nch = rng.range(2, 4)
+            order = [rng.range(0, nch - 1) for _r in range(rng.range(nch + 1, 7))]
+            order = list(range(nch)) + order if rng.chance(1, 2) else list(reversed(range(nch))) + order
+            line = "c03net %s %d %d %s" % (form, nch, len(order), " ".join(str(x) for x in order))
+            cs.append({"line": line, "key": line, "model": False, "tags": {"src": "network-targets-" + form, "nchan": nch, "nallow": 0, "nreq": len(order)}})
     for kind in ("socket", "packet", "dns", "stdio", "cfg-socket", "cfg-packet", "cfg-dns", "cfg-stdio"):
         for _ in range(150 if thorough else (25 if not kind.startswith("cfg-") else 12)):
             names, allow = gen(rng)
@@ -131,10 +140,12 @@ def oracle(case, impl):
         return out
     if toks[0] == "c03two":
         eps = impl.split("ep")[1:]
-        if len(eps) != 2:
+        # ws2: two more blocks, each server asked on the path only the other one has - nothing is served there
+        owners = ("x", "y", None, None) if toks[1] == "ws2" else ("x", "y")
+        if len(eps) != len(owners):
             return [("crash", "two-endpoint case failed to run: " + impl[:200])]
         out = []
-        for i, (ep, mine) in enumerate(zip(eps, ("x", "y"))):
+        for i, (ep, mine) in enumerate(zip(eps, owners)):
             w = ep.split()
             res = []
             j = 0
@@ -152,6 +163,27 @@ def oracle(case, impl):
                     out.append(("refused-configured;two-endpoints=" + toks[1], "endpoint %d allows %r but refused it" % (i, mine)))
                 if got is not None and got != {"x": 0, "y": 1}.get(rq):
                     out.append(("wrong-target", "request %r connected to target %d" % (rq, got)))
+        return out
+    if toks[0] == "c03net":
+        nch, nreq = int(toks[2]), int(toks[3])
+        want = [int(t) % nch for t in toks[4:4 + nreq]]
+        res = []
+        j = 0
+        while j < len(p):
+            if p[j] == "dial":
+                res.append(int(p[j + 1]))
+                j += 2
+            else:
+                res.append(p[j])
+                j += 1
+        out = []
+        if len(res) != len(want):
+            return [("crash", "network-channel case failed to run: " + impl[:200])]
+        for k, (w, g) in enumerate(zip(want, res)):
+            if isinstance(g, int) and g != w:
+                out.append(("wrong-target;targets=" + toks[1], "request %d (of %r) for channel svc%d was connected to the service of svc%d" % (k, want, w, g)))
+            elif not isinstance(g, int):
+                out.append(("refused-configured;targets=" + toks[1], "request %d for the configured channel svc%d: %s" % (k, w, g)))
         return out
     if toks[0] == "c03start":
         # what an endpoint of this kind serves once started: with an allow-list exactly the table entries it names, nothing else
